@@ -415,6 +415,7 @@ type Contract struct {
 	Requires []*Clause
 	Ensures  []*Clause
 	Invs     []*Clause
+	Records  []*Clause // `records #g := e`: ghost bookkeeping applied at call sites only
 	Modifies []string
 	HasMod   bool
 	Body     Expr // pred/fun/axiom
@@ -426,11 +427,12 @@ type Contract struct {
 	File     string
 	Line     int
 	Induct   string
+	Caller   string // callsite contracts: the calling function
 	Notes    []string
 }
 
-var headRe = regexp.MustCompile(`^(func|trusted func|loop|pred|fun|lemma|axiom|ghost var|ghost field|chan|guarded|sort|assume-call)\s+(.*)$`)
-var clauseRe = regexp.MustCompile(`^(requires|ensures|invariant|modifies|nopanic|pure|opaque|induction|note)\b\s*(.*)$`)
+var headRe = regexp.MustCompile(`^(func|trusted func|loop|pred|fun|lemma|axiom|ghost var|ghost field|chan|guarded|sort|assume-call|callsite)\s+(.*)$`)
+var clauseRe = regexp.MustCompile(`^(requires|ensures|invariant|modifies|records|nopanic|pure|opaque|induction|note)\b\s*(.*)$`)
 
 // splitParams splits "a int, b []T" at top-level commas into name/type pairs.
 func splitParams(s string) []Param {
@@ -642,6 +644,18 @@ func ParseContractFile(path, pkgPath string) ([]*Contract, error) {
 				}
 			case "chan", "guarded":
 				cur.Name = rest
+			case "callsite":
+				// callsite CALLER -> CALLEE(params)
+				i := strings.Index(rest, "->")
+				if i < 0 {
+					return nil, fmt.Errorf("%s:%d: callsite needs CALLER -> CALLEE", path, ln+1)
+				}
+				cur.Caller = strings.TrimSpace(rest[:i])
+				name, ps, rs, err := parseFuncHeader(strings.TrimSpace(rest[i+2:]))
+				if err != nil {
+					return nil, fmt.Errorf("%s:%d: %v", path, ln+1, err)
+				}
+				cur.Name, cur.Params, cur.Results = name, ps, rs
 			}
 			continue
 		}
@@ -666,6 +680,13 @@ func ParseContractFile(path, pkgPath string) ([]*Contract, error) {
 			case "invariant":
 				curClause = &Clause{Kind: "invariant", Text: m[2], Pos: pos, Idx: len(cur.Invs) + 1}
 				cur.Invs = append(cur.Invs, curClause)
+			case "records":
+				i := strings.Index(m[2], ":=")
+				if i < 0 {
+					return nil, fmt.Errorf("%s: records needs `#g := expr`", pos)
+				}
+				curClause = &Clause{Kind: "records:" + strings.TrimSpace(m[2][:i]), Text: m[2][i+2:], Pos: pos, Idx: len(cur.Records) + 1}
+				cur.Records = append(cur.Records, curClause)
 			case "modifies":
 				cur.HasMod = true
 				for _, x := range strings.Split(m[2], ",") {
